@@ -77,7 +77,7 @@ func checkCase(c Case, rec *pbt.Rec) pbt.Verdict {
 	// differential oracle: a cancelling subscriber does not change what any other subscriber experiences.
 	// Only stepped cases are deterministic enough for an exact comparison.
 	if c.stepped() && len(vs) == 0 {
-		if twin, cancelled := withoutCancels(c); len(cancelled) > 0 {
+		if twin, cancelled := withoutCancels(c, o); len(cancelled) > 0 {
 			ot := run(twin)
 			if len(ot.liveness) > 0 || ot.leak != "" {
 				// the twin is a case in its own right: what it violates is a violation (and it must not cost the
@@ -135,6 +135,9 @@ func wellFormed(c Case) string {
 		if s.Tuple < 0 || s.Tuple >= len(c.Tuples) || s.Nexts < 0 || s.Nexts > 16 {
 			return "subscription out of range"
 		}
+		if on := s.On; on != nil && (on.At < 0 || (on.Act != "cancel-self" && on.Act != "cancel-other" && on.Act != "block") || on.Other < 0 || on.Other >= len(c.Subs)) {
+			return "handler behaviour out of range"
+		}
 	}
 	subbed := map[int]bool{}
 	for _, s := range c.Steps {
@@ -144,9 +147,13 @@ func wellFormed(c Case) string {
 				return "sub step out of range or repeated"
 			}
 			subbed[s.Sub] = true
-		case "cancel", "expire", "send":
+		case "cancel", "expire", "send", "release":
 			if s.Sub < 0 || s.Sub >= len(c.Subs) {
 				return "step subscription out of range"
+			}
+		case "abandon":
+			if s.Key < 0 || s.Key >= len(c.Tuples) || s.Sub < 0 || s.Sub >= len(c.Subs) {
+				return "abandon step out of range"
 			}
 		case "ack", "drop":
 			if s.Key < 0 || s.Key >= len(c.Tuples) {
@@ -164,17 +171,33 @@ func wellFormed(c Case) string {
 }
 
 // withoutCancels is the same case minus every cancel.
-func withoutCancels(c Case) (Case, map[int]bool) {
+func withoutCancels(c Case, o *outcome) (Case, map[int]bool) {
 	t := c
 	t.Steps = nil
 	cancelled := map[int]bool{}
 	for _, s := range c.Steps {
-		if s.Op == "cancel" || s.Op == "expire" {
+		switch s.Op {
+		case "cancel", "expire":
 			cancelled[s.Sub] = true
 			continue
+		case "abandon":
+			continue // who it cancelled is known from the run only (below)
 		}
 		t.Steps = append(t.Steps, s)
 	}
+	t.Subs = append([]Sub(nil), c.Subs...)
+	for i := range t.Subs {
+		if on := t.Subs[i].On; on != nil && on.Act != "block" {
+			t.Subs[i].On = nil // a handler that cancels is a cancel
+		}
+	}
+	o.w.mu.Lock()
+	for i, st := range o.w.subs {
+		if st.cancelIssued {
+			cancelled[i] = true
+		}
+	}
+	o.w.mu.Unlock()
 	return t, cancelled
 }
 
@@ -185,6 +208,39 @@ func classify(c Case, o *outcome, rec *pbt.Rec) {
 	defer w.mu.Unlock()
 	for _, a := range o.aidExpired {
 		rec.Label("aid-expired:" + a)
+	}
+	if o.sentWhileBlocked > 0 {
+		rec.Label("handler:blocked-while-upstream-sends-on-its-connection")
+	}
+	if o.cancelWhileBlocked > 0 {
+		rec.Label("handler:blocked-while-another-subscriber-of-its-connection-cancels")
+	}
+	if o.subWhileBlocked > 0 {
+		rec.Label("handler:blocked-while-another-subscribes-to-its-tuple")
+	}
+	maxSat := 0
+	for _, st := range w.subs {
+		if !st.cancelIssued {
+			maxSat = max(maxSat, st.satThrough)
+		}
+	}
+	if maxSat > 0 {
+		rec.Labelf("survivor-waited-through-abandoned-dials:%d", min(maxSat, 4))
+	}
+	if maxSat >= 3 {
+		rec.Label("survivor-waited-through>=3-abandoned-dials")
+	}
+	for i, st := range w.subs {
+		for _, a := range st.handlerActs {
+			switch {
+			case a == "cancel-other" && c.Subs[i].On != nil && c.Subs[i].On.Other != i && w.subs[c.Subs[i].On.Other].conn != nil && w.subs[c.Subs[i].On.Other].conn == st.conn:
+				rec.Label("handler:cancel-other-on-same-connection")
+			case a == "cancel-self" && st.conn != nil && len(st.conn.ids) >= 2:
+				rec.Label("handler:cancel-self-on-shared-connection")
+			default:
+				rec.Label("handler:" + a)
+			}
+		}
 	}
 	if o.idleWaited {
 		rec.Label("idle-timer-pending-on-reused-conn-with-live-subs")
